@@ -226,6 +226,13 @@ theorem int_slack_lt (dd now cap lat : Int) (hcap : 0 < cap) (hlat : 0 ≤ lat) 
   · omega
   · omega
 
+theorem int_le_add (a b : Int) (h : 0 ≤ b) : a ≤ a + b := by omega
+theorem int_le_add2 (a b c : Int) (hb : 0 < b) (hc : 0 ≤ c) : a ≤ a + b + c := by omega
+theorem int_le_add3 (a b c : Int) (hb : 0 ≤ b) (hc : 0 ≤ c) : a ≤ a + b + c := by omega
+theorem int_delay_nonneg (now dd d : Int) (h1 : now < dd) (h2 : d = dd - now) : 0 ≤ d := by omega
+theorem int_cap_lt (cap d dd now : Int) (h1 : cap < d) (h2 : d = dd - now) : cap < dd - now := by omega
+theorem int_wake (dd now d lat : Int) (h1 : d = dd - now) (h2 : 0 ≤ lat) : ¬ (dd > now + d + lat) := by omega
+
 theorem int_sleep_le (now d cap lat : Int) (hd : 0 ≤ d) (hcap : 0 < cap) (hlat : 0 ≤ lat) :
     now ≤ now + (if d > cap then cap else d) + lat := by
   split <;> omega
@@ -310,7 +317,7 @@ theorem step_decreases (env : Env) (wf : WF env) (hfin : AllFinal env) (s : Stat
       open_U_lt (cfgOf env s) s.P s.now env.exec hsub hu hr hne hopen hfin i hi ha
     rcases loopStep_cases env s hp hpm with ⟨_, h⟩ | ⟨d, _, hm, h⟩ | ⟨_, _, h⟩
     · rw [h]
-      have hle : s.now ≤ s.now + env.lat := by have := wf.lat; omega
+      have hle : s.now ≤ s.now + env.lat := int_le_add s.now env.lat wf.lat
       obtain ⟨k1, k2⟩ := key _ (s.writes + 1) hle
       have := hAle (s.now + env.lat)
       rw [k1, hb]; omega
@@ -335,7 +342,7 @@ theorem step_decreases (env : Env) (wf : WF env) (hfin : AllFinal env) (s : Stat
   · -- nobody is due, superseded records are re-purposed
     rcases loopStep_cases env s hp hpm with ⟨_, h⟩ | ⟨d, _, hm, h⟩ | ⟨_, _, h⟩
     · rw [h]
-      have hle : s.now ≤ s.now + env.lat := by have := wf.lat; omega
+      have hle : s.now ≤ s.now + env.lat := int_le_add s.now env.lat wf.lat
       obtain ⟨k1, k2⟩ := key _ (s.writes + 1) hle
       have := hAle (s.now + env.lat)
       rw [k1, hb, hA]; simp only [hex, if_true]; omega
@@ -360,18 +367,16 @@ theorem step_decreases (env : Env) (wf : WF env) (hfin : AllFinal env) (s : Stat
     simp [hid]
   rcases loopStep_cases env s hp hpm with ⟨h, _⟩ | ⟨d, _, hm, h⟩ | ⟨_, _, h⟩
   · rw [hnc] at h; cases h
-  · rw [h]
-    have hmem := minDelay_mem _ _ hm
+  · have hmem := minDelay_mem _ _ hm
     obtain ⟨i, hi, r, dd, hP, hrf, hrd, hlt, hdeq⟩ :=
       sleep_pass_delay (exec := env.exec) hsub hr hne hex' hna d hmem
-    have hd : 0 ≤ d := by have : (s.now : Int) < dd := hlt; have : (d : Int) = dd - s.now := hdeq; omega
-    have hle := int_sleep_le s.now d env.cap env.lat hd wf.cap wf.lat
-    obtain ⟨k1, k2⟩ := key _ (s.writes + 1) hle
-    rw [k1, hb, hA]
-    simp only [hex', Bool.false_eq_true, if_false]
+    have hd : 0 ≤ d := int_delay_nonneg s.now dd d hlt hdeq
     by_cases hcap : d > env.cap
     · -- the delay exceeds the keepalive cap: one keepalive round is consumed
-      simp only [hcap, if_true] at *
+      rw [if_pos hcap] at h
+      rw [h]
+      have hle : s.now ≤ s.now + env.cap + env.lat := int_le_add2 s.now env.cap env.lat wf.cap wf.lat
+      obtain ⟨k1, k2⟩ := key _ (s.writes + 1) hle
       have hstrict : Cv env.cap (env.sel (causeOf s)) (pass env s).P' (s.now + env.cap + env.lat)
           < Cv env.cap (env.sel (causeOf s)) s.P s.now := by
         unfold Cv
@@ -379,14 +384,18 @@ theorem step_decreases (env : Env) (wf : WF env) (hfin : AllFinal env) (s : Stat
         · unfold slack
           rw [hid i, hP]
           simp only [hrf, Bool.false_eq_true, if_false, hrd]
-          have h1 : (env.cap : Int) < dd - s.now := by have : (d : Int) = dd - s.now := hdeq; have : (env.cap : Int) < d := hcap; omega
-          exact int_slack_lt dd s.now env.cap env.lat wf.cap wf.lat h1
+          exact int_slack_lt dd s.now env.cap env.lat wf.cap wf.lat (int_cap_lt env.cap d dd s.now hcap hdeq)
         · intro k hk
           exact open_slack (cfgOf env s) s.P s.now s.now env.exec hsub hu hr hne hopen hfin env.cap _ hle k hk
-      have := hAle (s.now + env.cap + env.lat)
+      have hA' := hAle (s.now + env.cap + env.lat)
+      rw [k1, hb, hA]
+      simp only [hex', Bool.false_eq_true, if_false]
       omega
     · -- the whole delay is slept: that handler is due at the next event
-      simp only [hcap, if_false] at *
+      rw [if_neg hcap] at h
+      rw [h]
+      have hle : s.now ≤ s.now + d + env.lat := int_le_add3 s.now d env.lat hd wf.lat
+      obtain ⟨k1, k2⟩ := key _ (s.writes + 1) hle
       have hAw : Av (env.sel (causeOf s)) (pass env s).P' (s.now + d + env.lat) = 0 := by
         unfold Av
         have : (env.sel (causeOf s)).any (awakeP (pass env s).P' (s.now + d + env.lat)) = true := by
@@ -396,11 +405,10 @@ theorem step_decreases (env : Env) (wf : WF env) (hfin : AllFinal env) (s : Stat
           rw [hid i, hP]
           simp only [Rec.awakened, Rec.sleeping, hrf, hrd, Bool.not_false, Bool.true_and, Bool.not_eq_true',
             decide_eq_false_iff_not]
-          have h1 : (d : Int) = dd - s.now := hdeq
-          have h2 : (0 : Int) ≤ env.lat := wf.lat
-          show ¬ ((dd : Int) > s.now + d + env.lat)
-          omega
+          exact int_wake dd s.now d env.lat hdeq wf.lat
         simp [this]
+      rw [k1, hb, hA, hAw]
+      simp only [hex', Bool.false_eq_true, if_false]
       omega
   · rw [h, hb, bound_not_pending _ _ rfl]; omega
 
